@@ -52,13 +52,17 @@ def gen(rng, tier, index):
     elif cfg["persistence"] and rng.random() < 0.2:
         # one scheduled save hits a transient I/O error; nothing changes afterwards
         ops.append(["fault_tick", rng.choice(["open", "write", "flush", "fsync", "close", "rename", "rename2", "rename2", "remove"]), rng.choice(["EIO", "EACCES", "ENOSPC"])])
-    if rng.random() < 0.3:
+    if rng.random() < 0.35:
         # stop() racing with a scheduled save that has something to write
         cfg["sched"] = {"policy": "rw", "seed": rng.getrandbits(32), "p": rng.choice([0.02, 0.08, 0.2])}
         cfg["max_steps"] = 1_500_000
-        if cfg["flavour"] not in ("mqtt", "amqtt") and rng.random() < 0.5:
+        if cfg["flavour"] not in ("mqtt", "amqtt") and rng.random() < 0.35:
             # ... while a line arrives that is handled during that save
             ops.append(["stop_at_tick", {"line": f"{rng.choice([1, 2, 3])};255;3;0;11;arrived during the last save"}])
+        elif cfg["flavour"] in ("serial", "tcp", "mqtt") and rng.random() < 0.7:
+            # ... and that scheduled save fails with a transient error while stop() is waiting for it
+            ops.append(["stop_at_tick", {"fault": [rng.choice(["open", "write", "fsync", "close", "rename", "rename2", "remove"]),
+                                                   rng.choice(["EIO", "EACCES", "ENOSPC"])]}])
         else:
             ops.append(["stop_at_tick"])
     elif rng.random() < 0.25:
